@@ -48,24 +48,32 @@ Print Assumptions C28_import_rejected_iff.
 (* `#mod("m")`: every outcome, exactly *)
 Theorem C28_mod_outcome_iff : forall c f s,
   (forall p, lower_import c f (modd s) = Accept p <->
-     forallb is_alnum s = true /\ is_dir (c_fs c) (mod_folder c s) = true
+     mod_name_ok c s = true /\ is_dir (c_fs c) (mod_folder c s) = true
      /\ p = clean (mod_folder c s ++ [s_mod_capy]) /\ is_file (c_fs c) p = true)
-  /\ (lower_import c f (modd s) = Reject RModNotAlnum <-> forallb is_alnum s = false)
+  /\ (lower_import c f (modd s) = Reject RModNotAlnum <-> mod_name_ok c s = false)
   /\ (lower_import c f (modd s) = Reject RModMissing <->
-        forallb is_alnum s = true /\ is_dir (c_fs c) (mod_folder c s) = false)
+        mod_name_ok c s = true /\ is_dir (c_fs c) (mod_folder c s) = false)
   /\ (lower_import c f (modd s) = Reject RModNoFile <->
-        forallb is_alnum s = true /\ is_dir (c_fs c) (mod_folder c s) = true
+        mod_name_ok c s = true /\ is_dir (c_fs c) (mod_folder c s) = true
         /\ is_file (c_fs c) (clean (mod_folder c s ++ [s_mod_capy])) = false).
 Proof. exact mod_outcome_iff. Qed.
 Print Assumptions C28_mod_outcome_iff.
 
-(* The full-strength reading (only NON-EMPTY alphanumeric names are accepted) is
-   false of the unchanged code: `#mod("")` finds <mod-dir>/src/mod.capy. *)
-Definition C28_mod_full : Prop := forall c f s p,
+(* The full-strength reading: only NON-EMPTY alphanumeric names are accepted.
+   The model has two variants selected by [c_fixed] (see Model/Imports.v):
+   the repaired code (`file.is_empty() || !all alphanumeric`) satisfies it ... *)
+Definition C28_mod_full (fixed : bool) : Prop := forall c f s p,
+  c_fixed c = fixed ->
   lower_import c f (modd s) = Accept p -> s <> [] /\ forallb is_alnum s = true.
-Theorem C28_mod_full_refuted : ~ C28_mod_full.
-Proof. exact ImportsProofs.C28_mod_full_refuted. Qed.
-Print Assumptions C28_mod_full_refuted.
+Theorem C28_mod_full_fixed : C28_mod_full true.
+Proof. exact ImportsProofs.C28_mod_full_fixed. Qed.
+Print Assumptions C28_mod_full_fixed.
+
+(* ... HISTORY: the code of the pinned commit (before the repair of known finding
+   C28-1) did not: `#mod("")` found <mod-dir>/src/mod.capy. *)
+Theorem C28_mod_full_refuted_unfixed : ~ C28_mod_full false.
+Proof. exact ImportsProofs.C28_mod_full_refuted_unfixed. Qed.
+Print Assumptions C28_mod_full_refuted_unfixed.
 
 (* what holds: accepted => alphanumeric, the target is a file, and for a non-empty
    name it is exactly <mod-dir>/m/src/mod.capy *)
@@ -93,7 +101,7 @@ Example C28_example_cycle :
   let w := [119]%N in let d := [100]%N in
   let main := [w; [109;97;105;110;46;99;97;112;121]]%N in
   let a := [w; d; [97;46;99;97;112;121]]%N in
-  let c := {| c_mod_dir := [[109]%N]; c_cwd := [w]; c_fs := [([w], Dir); ([w; d], Dir); (main, File); (a, File)] |} in
+  let c := {| c_mod_dir := [[109]%N]; c_cwd := [w]; c_fs := [([w], Dir); ([w; d], Dir); (main, File); (a, File)]; c_fixed := true |} in
   let pr := [(main, [imp [100;47;97;46;99;97;112;121]%N]);
              (a, [imp [46;46;47;109;97;105;110;46;99;97;112;121]%N; imp [97;46;99;97;112;121]%N;
                   imp [120;46;99;97;112;121]%N])] in
